@@ -5,6 +5,7 @@ FENCE_NOTE = ("Trusts: x86-64 Linux page protection and the fault error code (wr
               "and 20-40 line C models). Accesses inside mapped memory that is no arena slot are not observed.")
 
 ENGINES = [
+    {"name": "mbconv", "path": "harness/mbconv.c", "serves_properties": ["C15", "C01", "C02", "C03", "C04", "C05", "C08"], "kind_free_text": "multibyte/wide conversion driver with libc reference"},
     {"name": "misc", "path": "harness/misc.c", "serves_properties": ["C01", "C02", "C03", "C04", "C05", "C06", "C08", "C12"], "kind_free_text": "time / error-string / environment / line-input / file exports under the fence with libc references"},
     {"name": "fmtw", "path": "harness/fmtw.c", "serves_properties": ["C09"], "kind_free_text": "wide printf_s + narrow/wide scanf_s drivers with %n sentinels"},
     {"name": "fmt", "path": "harness/fmt.c", "serves_properties": ["C11", "C09", "C01", "C02", "C03", "C04", "C05", "C08"], "kind_free_text": "narrow printf_s family driver: variadic dispatcher (vcall_gen.h), format grammar, libc differential"},
@@ -102,6 +103,11 @@ META = {
                   "memcheck with both regions undefined; any branch or address depending on them is reported and attributed per call; a naive early-exit compare must "
                   "raise reports in the same run (positive control), otherwise the verdict is inconclusive.",
              note="Trusts valgrind memcheck's definedness tracking; observes control-flow and address dependence only, for the two builds examined (gcc 12, x86-64)."),
+ "C15": dict(technique="runtime monitoring: differential oracle against libc converters over exhaustive small strings, both locales, with fence",
+             engine="mbconv",
+             text="The six conversion exports are called on every short string over the four UTF-8 character widths and on invalid sequences at every position, with len/dmax below, at "
+                  "and above the converted length, dest NULL, both locales; characters, count, *srcp, round trip, query-then-convert and state reuse are compared with libc.",
+             note=FENCE_NOTE),
  "C16": dict(technique="runtime monitoring: checking comparator + post-sort order/permutation scan + linear-search reference, array between guard pages, plain and ASan builds",
              engine="sortsearch",
              text="qsort_s on exact-fit arrays between PROT_NONE pages: result must be ordered and a permutation (multiset of whole elements), every comparator "
